@@ -614,3 +614,72 @@ pub fn run(lines: &[Value], opts: &SampleOpts) -> Summary {
     }
     sm
 }
+
+// ------------------------------------------------------------------------------------------------
+// replay-sector: behaviours of the Sample machine (spec/gen/Gen_Sector.tla) stepped through the real call.
+// The abstract state after the sector loop - removal order, xi exponents, tropical flag edges - is
+// compared with the projection of the real execution (the repository's debug log), bit for bit.
+pub fn run_sector(lines: &[Value], seed: u64, base_idx: u64, points: usize) -> Summary {
+    use crate::graphs::cycle_basis;
+    let mut sm = Summary::default();
+    for (li, inst) in lines.iter().enumerate() {
+        let idx = li as u64 + base_idx;
+        let g = InstGraph::parse(&inst["g"]);
+        let e = g.ne();
+        let wd = g.wd as f64;
+        let mut rng = rng_for(seed, idx);
+        let order: Vec<usize> = arr(&inst["order"]).iter().map(|x| as_usize(x) - 1).collect();
+        let om: Vec<f64> = arr(&inst["om"]).iter().map(|x| as_i64(x) as f64 / wd).collect();
+        let utr: Vec<usize> = arr(&inst["utr"]).iter().map(|x| as_usize(x) - 1).collect();
+        let vtr = as_i64(&inst["vtr"]);
+        let steer: Vec<Option<(f64, f64)>> = arr(&inst["steer"]).iter().map(|iv| {
+            let f = |r: &Value| { let (n, d) = (as_i64(&r[0]), as_i64(&r[1])); if d == 0 { None } else { Some(n as f64 / d as f64) } };
+            match (f(&iv[0]), f(&iv[1])) { (Some(a), Some(b)) if b - a > 4e-6 => Some((a, b)), _ => None }
+        }).collect();
+        if steer.iter().any(|s| s.is_none()) { sm.count("unsteerable"); continue; }
+        let map = g.label_map(&mut rng, false);
+        let s = match build(&g.to_spec(&map, &[]), cycle_basis(&g.edges), g.d) { BuildOut::Ok(s) => s, o => {
+            sm.violation("C05", format!("build of an accepted graph gave {}", o.name()), json!({"line": inst, "idx": idx}), json!({})); continue; } };
+        if li < 2 { sm.sample(inst.clone()); }
+        if e >= 3 { sm.nontrivial += 1; }
+        let dim = s.dim();
+        if dim != as_usize(&inst["dim"]) { sm.violation("C03", format!("get_dimension {} != {}", dim, inst["dim"]), json!({"line": inst, "idx": idx}), json!({})); continue; }
+        for _ in 0..points {
+            let mut x = vec![0.0; dim];
+            for i in 0..dim {
+                x[i] = if i < 2 * e - 2 && i % 2 == 0 { let (a, b) = steer[i / 2].unwrap(); a + (b - a) * rng.gen_range(0.25..0.75) }
+                       else if i < 2 * e - 2 { [0.5, 0.25, rng.gen_range(0.05..0.95), rng.gen_range(0.05..0.95)][rng.gen_range(0..4)] }
+                       else { rng.gen_range(0.01..0.99) };
+            }
+            let ed: EdgeData<f64> = (0..e).map(|i| (if g.mass[i] { Some(1.0) } else { None }, (0..g.d).map(|c| ((i + c) % 3) as f64 - 1.0).collect())).collect();
+            let out = s.sample_f64(&x, &ed, &Settings::new(None, true, false));
+            sm.evaluations += 1;
+            let ident = json!({"line": inst, "idx": idx, "x": x.iter().map(|v| hexf(*v)).collect::<Vec<_>>()});
+            if let Outcome::Panic(m) = &out.outcome { sm.violation("C06", format!("sample panicked: {}", m), ident, json!({})); continue; }
+            let (xun, ut, vt) = match (getlog(&out.log, "momtrop_feynman_parameter_no_rescaling"), getlog(&out.log, "momtrop_u_trop_no_rescaling"), getlog(&out.log, "momtrop_v_trop_no_rescaling")) {
+                (Some(a), Some(b), Some(c)) => (vf(a), b.as_f64().unwrap_or(f64::NAN), c.as_f64().unwrap_or(f64::NAN)),
+                _ => { sm.count("log_missing"); continue; }
+            };
+            sm.count("behaviours_replayed");
+            // state after the sector loop, action by action
+            match order_of(&xun) {
+                Some(o) if o == order => {}
+                Some(o) => { sm.violation("C06", format!("removal order {:?} differs from the specification behaviour {:?} (coordinates inside the exact probability intervals)", o, order), ident.clone(), json!({"xun": xun})); continue; }
+                None => { sm.count("order_ambiguous"); continue; }
+            }
+            let mut kappa = 1.0f64;
+            let mut bad = vec![];
+            for k in 0..e {
+                if ulps(xun[order[k]], kappa) > 8 * (k as u64 + 1) { bad.push(json!({"step": k, "edge": order[k], "code": xun[order[k]], "spec": kappa})); }
+                if k < e - 1 { kappa *= x[2 * k + 1].powf(1.0 / om[k]); }
+            }
+            if !bad.is_empty() { sm.violation("C07", "Feynman parameters differ from prod_j xi_j^(1/omega(g_j)) of the specification behaviour".into(), ident.clone(), json!({"bad": bad, "om": om})); }
+            let mut up = 1.0f64;
+            for &ed_ in &utr { up *= xun[ed_]; }
+            if ulps(ut, up) > 4 { sm.violation("C07", format!("u_trop before rescaling {} differs from the product over the specification's flag edges {:?} = {}", ut, utr, up), ident.clone(), json!({"xun": xun})); }
+            let vp = if vtr == 0 { 1.0 } else { xun[vtr as usize - 1] };
+            if vt.to_bits() != vp.to_bits() { sm.violation("C07", format!("v_trop before rescaling {} differs from the parameter of the specification's flag edge {} = {}", vt, vtr, vp), ident.clone(), json!({"xun": xun})); }
+        }
+    }
+    sm
+}
